@@ -216,6 +216,150 @@ def build_entry(kind, pts, rng):
     return (lambda: col.convex_hull), ms
 
 
+# ----------------------------------------------------------------------------- collections of members of every size
+# Mechanism class covered: how a collection (FeatureCollection, Track) or a multi-shape GATHERS the coordinates of its
+# members before hulling them - the recursion into multi-shape members, per-member pre-reduction (hull of hulls, dropping
+# a "closing" coordinate, de-duplication, bounding coordinates instead of vertices), special cases by member type or
+# size.  Any such step is an identity on members with two or more distinct positions that form a closed ring, and goes
+# wrong on the small ones: a multi-shape with exactly ONE distinct position (one point; the same point repeated; a
+# linestring whose vertices coincide), with two, with collinear ones, single points, members that only contribute interior
+# points.  The families below put such members at hull vertices, on hull edges, inside, on top of each other, and make
+# them the whole collection (one position -> the one-point ring [c]; no members -> IndexError: HullM.hull_of_members).
+DEGENERATE = ('mpt1', 'mptrep', 'mline1', 'mlinerep')          # multi-shapes with exactly one distinct position
+SMALL_KINDS = DEGENERATE + ('pt', 'mline2', 'mptcol')
+MEMBER_NEEDS = {'pt': 1, 'mpt1': 1, 'mptrep': 1, 'mline1': 1, 'mlinerep': 1, 'mline2': 2, 'mptcol': 2, 'mpt': 2, 'line': 2,
+                'mline': 4, 'poly': 3, 'mpoly': 6, 'box': 2}
+
+
+def mk_member(kind, m, rep=2, dt=None):
+    """member kind + the grid points it is made of -> (shape, the member's vertex list as the library stores it)"""
+    kw = {} if dt is None else {'dt': dt}
+    if kind == 'pt':
+        return GeoPoint(C(m[0]), **kw), [m[0]]
+    if kind == 'mpt1':                                   # GeoJSON MultiPoint with one position
+        return MultiGeoPoint([GeoPoint(C(m[0]))], **kw), [m[0]]
+    if kind == 'mptrep':                                 # several points at one place
+        return MultiGeoPoint([GeoPoint(C(m[0])) for _ in range(rep)], **kw), [m[0]] * rep
+    if kind == 'mline1':                                 # a linestring whose vertices coincide
+        return MultiGeoLineString([GeoLineString([C(m[0])] * rep)], **kw), [m[0]] * rep
+    if kind == 'mlinerep':                               # several such linestrings
+        return MultiGeoLineString([GeoLineString([C(m[0]), C(m[0])]) for _ in range(rep)], **kw), [m[0]] * (2 * rep)
+    if kind == 'mline2':                                 # two distinct positions: the hull ring is [a, b, a]
+        return MultiGeoLineString([GeoLineString([C(m[0]), C(m[1])])], **kw), [m[0], m[1]]
+    if kind == 'mptcol':                                 # collinear positions (a, b and points between them)
+        a, b = m[0], m[1]
+        mid = [(a[0] + (b[0] - a[0]) * t // rep, a[1] + (b[1] - a[1]) * t // rep) for t in range(1, rep)
+               if (b[0] - a[0]) * t % rep == 0 and (b[1] - a[1]) * t % rep == 0]
+        v = [a] + mid + [b]
+        return MultiGeoPoint([GeoPoint(C(p)) for p in v], **kw), v
+    if kind == 'mpt':
+        return MultiGeoPoint([GeoPoint(C(p)) for p in m], **kw), list(m)
+    if kind == 'line':
+        return GeoLineString([C(p) for p in m], **kw), list(m)
+    if kind == 'mline':
+        h = len(m) // 2
+        return MultiGeoLineString([GeoLineString([C(p) for p in m[:h]]), GeoLineString([C(p) for p in m[h:]])], **kw), list(m)
+    if kind == 'poly':
+        v = list(m) + [m[0]]
+        return GeoPolygon([C(p) for p in v], **kw), v
+    if kind == 'mpoly':
+        h = len(m) // 2
+        a, b = list(m[:h]) + [m[0]], list(m[h:]) + [m[h]]
+        return MultiGeoPolygon([GeoPolygon([C(p) for p in a]), GeoPolygon([C(p) for p in b])], **kw), a + b
+    if kind == 'box':
+        w, e = min(m[0][0], m[1][0]), max(m[0][0], m[1][0])
+        s, n = min(m[0][1], m[1][1]), max(m[0][1], m[1][1])
+        return GeoBox(C((w, n)), C((e, s)), **kw), [(w, n), (w, s), (e, s), (e, n), (w, n)]
+    raise ValueError(kind)
+
+
+def build_collection(entry, specs):
+    """entry: 'fc' | 'track' | 'mpoint' | 'mline'; specs: [(kind, points, rep, hour)] ->
+    (callable returning the hull polygon, member vertex lists in the collection's own order)"""
+    if entry == 'mpoint':              # MultiGeoPoint.convex_hull(): every spec is one position, repeated `rep` times
+        ms = [[s[1][0]] * s[2] for s in specs]
+        shape = MultiGeoPoint([GeoPoint(C(p)) for m in ms for p in m])
+        return (lambda: shape.convex_hull()), ms
+    if entry == 'mline':               # MultiGeoLineString.convex_hull(): linestrings, some with coinciding vertices
+        ms = [([s[1][0]] * max(2, s[2]) if MEMBER_NEEDS[s[0]] == 1 else list(s[1])) for s in specs]
+        shape = MultiGeoLineString([GeoLineString([C(p) for p in m]) for m in ms])
+        return (lambda: shape.convex_hull()), ms
+    built = []
+    for kind, m, rep, hour in specs:
+        dt = T0 + timedelta(hours=hour) if entry == 'track' else None
+        built.append((hour, mk_member(kind, m, rep, dt)))
+    if entry == 'track':
+        col = Track([sh_ for _, (sh_, _) in built])
+        built.sort(key=lambda x: x[0])           # Track orders its members by time
+    else:
+        col = FeatureCollection([sh_ for _, (sh_, _) in built])
+    return (lambda: col.convex_hull), [v for _, (_, v) in built]
+
+
+def distinct_box(a, b):
+    return a[0] != b[0] and a[1] != b[1]
+
+
+def gen_collection(rng):
+    """-> (class, [(kind, points, rep, hour)]) in grid units"""
+    form = rng.choice(['lone', 'lone', 'stacked', 'only-degenerate', 'base+extreme', 'base+extreme', 'base+extreme',
+                       'base+inside', 'base+edge', 'mixed', 'mixed', 'mixed'])
+    ox, oy = rng.randint(-5, 5), rng.randint(-5, 5)
+    R = rng.choice([1, 2, 3, 6, 12])
+    rp = lambda: (ox + rng.randint(-R, R), oy + rng.randint(-R, R))        # noqa: E731
+    deg = lambda p: (rng.choice(DEGENERATE), [p], rng.randint(2, 4))         # noqa: E731
+    specs = []
+    if form == 'lone':                     # the whole collection is one member with one distinct position
+        specs = [deg(rp())]
+    elif form == 'stacked':                # several one-position members at the same place
+        p = rp()
+        specs = [(rng.choice(DEGENERATE + ('pt',)), [p], rng.randint(2, 4)) for _ in range(rng.randint(2, 4))]
+    elif form == 'only-degenerate':        # every position comes from a one-position multi-shape
+        specs = [deg(rp()) for _ in range(rng.randint(2, 7))]
+    elif form in ('base+extreme', 'base+inside', 'base+edge'):
+        k = rng.randint(1, 3)
+        w, h = k * rng.randint(1, 3) * 2, k * rng.randint(1, 3) * 2
+        corners = [(ox, oy), (ox + w, oy), (ox + w, oy + h), (ox, oy + h)]
+        rot = rng.randrange(4)
+        corners = corners[rot:] + corners[:rot]
+        bk = rng.choice(['poly', 'box', 'line', 'mpt', 'mline', 'pts', 'tri'])
+        if bk == 'box':
+            specs.append(('box', [corners[0], corners[2]], 2))
+        elif bk == 'pts':
+            specs += [('pt', [c], 2) for c in corners]
+        elif bk == 'tri':
+            specs.append(('poly', corners[:3], 2))
+        else:
+            specs.append((bk, corners, 2))
+        for _ in range(rng.randint(1, 3)):
+            if form == 'base+extreme':     # outside the base: a hull vertex that no other member supplies
+                side = rng.choice([(-1, 0), (1, 0), (0, -1), (0, 1), (1, 1), (-1, -1), (1, -1), (-1, 1)])
+                p = (ox + w // 2 + side[0] * (w // 2 + rng.randint(1, 4)) + (rng.randint(-2, 2) if side[0] == 0 else 0),
+                     oy + h // 2 + side[1] * (h // 2 + rng.randint(1, 4)) + (rng.randint(-2, 2) if side[1] == 0 else 0))
+            elif form == 'base+inside':    # contributes interior points only
+                p = (ox + rng.randint(1, w - 1), oy + rng.randint(1, h - 1))
+            else:                          # on an edge of the base
+                p = rng.choice([(ox + rng.randint(0, w), oy), (ox, oy + rng.randint(0, h)), (ox + w, oy + rng.randint(0, h)),
+                                (ox + w // 2, oy + h)])
+            specs.append(rng.choice([deg(p), deg(p), ('pt', [p], 2), ('mline2', [p, rng.choice(corners)], 2),
+                                     ('mptcol', [p, rng.choice(corners)], rng.choice([2, 3, 4]))]))
+    else:                                  # mixed: random members of every kind over a random configuration
+        pts = [rp() for _ in range(rng.randint(2, 16))]
+        i = 0
+        while i < len(pts):
+            kind = rng.choice(SMALL_KINDS + SMALL_KINDS + ('mpt', 'line', 'mline', 'poly', 'mpoly', 'box'))
+            need = MEMBER_NEEDS[kind]
+            if len(pts) - i < need or (kind == 'box' and not distinct_box(pts[i], pts[i + 1])):
+                kind, need = rng.choice(DEGENERATE + ('pt',)), 1
+            take = need if kind in SMALL_KINDS + ('box', 'mpoly') else min(len(pts) - i, need + rng.randint(0, 2))
+            specs.append((kind, pts[i:i + take], rng.randint(2, 4)))
+            i += take
+    rng.shuffle(specs)
+    hours = list(range(len(specs)))
+    rng.shuffle(hours)
+    return form, [(k, m, r, hours[i]) for i, (k, m, r) in enumerate(specs)]
+
+
 def impl_entry(kind, pts, rng):
     fn, ms = build_entry(kind, pts, rng)
     return guarded(lambda: [of_coord(c) for c in fn().outline]), ms
@@ -515,6 +659,49 @@ def main():
     for kind in ('mpoint', 'mline', 'mpoly', 'fc'):     # no members at all: GeoPolygon([]) raises IndexError
         add_entry(kind, [], 'empty')
 
+    # -- collections and multi-shapes whose members include the small ones (see DEGENERATE above): FeatureCollection, Track
+    #    (every member timed), MultiGeoPoint / MultiGeoLineString directly; judged by the model (hull_of_members on the
+    #    members' stored vertex lists) and by the property on the actual coordinates
+    def add_collection(entry, form, specs, frame=IDENT):
+        set_frame(frame)
+        allpts = [p for s_ in specs for p in s_[1]]
+        if frame != IDENT and not frame_exact(allpts, rng):
+            skipped[0] += 1
+            return
+        try:
+            fn, ms = build_collection(entry, specs)
+            flat = [p for x in ms for p in x]
+            if frame != IDENT and not frame_exact(flat, rng):      # 'mptcol' adds points between the given ones
+                raise Inexact('member vertex not representable')
+        except Inexact:
+            skipped[0] += 1
+            return
+        r = guarded(lambda: [of_coord(c) for c in fn().outline])
+        m = {'k': 'entry', 'entry': entry, 'class': 'members:' + form, 'pts': flat, 'members': ms, 'out': r, 'frame': frame_json(frame),
+             'member_specs': [[k_, [list(p) for p in pts_], rep_, hr_] for k_, pts_, rep_, hr_ in specs]}
+        cases.append(f'KEntry {listlit([ptslit(x) for x in ms])} {reslit(r, ptslit)}')
+        m['clauses'] = oracle_here(flat, r[1]) if r[0] == 'Ok' else \
+            ([] if not flat and r[1] == 'IndexError' else [('raises', f'{entry} convex hull raised {r[1]} on members {ms}')])
+        meta.append(m)
+        ck.count('members:' + form)
+        ck.count('members-entry:' + entry)
+        if any(s_[0] in DEGENERATE for s_ in specs):
+            ck.count('members:with a one-position multi-shape')
+        if len(set(flat)) >= 3:
+            seen_nontrivial.add((tuple(flat), entry, frame[2]))
+
+    MEMBER_FRAMES = [IDENT, (1, -3, 0), (FR(75, 2), FR(49, 4), 5), (FR(-569, 8), FR(91, 2), 10), (0, 0, 16), (FR(75, 2), FR(49, 4), 24)]
+    for it in range(3000 if thorough else 500):
+        form, specs = gen_collection(rng)
+        entry = ('fc', 'track', 'fc', 'track', 'fc', 'mpoint', 'mline')[it % 7]
+        add_collection(entry, form, specs, MEMBER_FRAMES[(it // 7) % len(MEMBER_FRAMES)])
+    # fixed: one position, as every kind of one-position member, alone / twice / next to a box it lies outside of
+    for kind in DEGENERATE + ('pt',):
+        for entry in ('fc', 'track'):
+            add_collection(entry, 'fixed', [(kind, [(2, 6)], 2, 0)])
+            add_collection(entry, 'fixed', [(kind, [(2, 6)], 3, 1), (kind, [(2, 6)], 2, 0)])
+            add_collection(entry, 'fixed', [('box', [(0, 2), (4, 0)], 2, 0), ('line', [(1, 1), (2, 3)], 2, 2), (kind, [(2, 6)], 2, 1)])
+
     # -- seeded structured generators, each configuration in one frame of the cycle
     n_gen = 6000 if thorough else 1100
     kinds = itertools.cycle(ENTRY_KINDS)
@@ -699,7 +886,11 @@ def main():
                    'SAME configuration at every s in 0,5,10,16,20,24,30,40,100 and 1-3 bases (answers compared with the model and with each other); subsets of '
                    'the 4x4 grid (thorough: all 14892 subsets of <= 6 points; quick: all of <= 3 points and 450 random ones of 4..6) in degree, '
                    'metre and centimetre frames, each in ALL its orders, every order compared with the canonical one (which Coq compares with '
-                   'the model); exactness of the float computation checked per case with Fractions (skipped_inexact counts the cases dropped); '
+                   'the model); collections (FeatureCollection, Track with timed members) and MultiGeoPoint / MultiGeoLineString whose members '
+                   'include multi-shapes with ONE distinct position (one point, a repeated point, linestrings with coinciding vertices), two or '
+                   'collinear positions, single points and ordinary members - alone (the whole collection), stacked, only such members, next to a '
+                   'base shape as a hull vertex nobody else supplies / on its edge / inside, and mixed - in 6 frames; '
+                   'exactness of the float computation checked per case with Fractions (skipped_inexact counts the cases dropped); '
                    'non-trivial = at least 3 distinct points and (a repeated input point, or two points sharing a longitude, or an input point on '
                    'a hull edge); distinct (input tuple, scale) counted',
               assumptions=['coordinates are base + k*2^-s with small integers k (no Z value): representable, differences and cross products exact in '
@@ -750,7 +941,12 @@ def replay(path):
     if m.get('k') == 'entry':
         set_frame(m.get('frame') or IDENT)
         ms = [[tuple(p) for p in x] for x in m['members']]
-        eo = guarded(lambda: [of_coord(c) for c in rebuild_entry(m['entry'], ms).outline])
+        if m.get('member_specs'):       # the members as they were built (kind, points, repetitions, hour)
+            specs = [(k_, [tuple(p) for p in pts_], rep_, hr_) for k_, pts_, rep_, hr_ in m['member_specs']]
+            print('members (kind, grid points, repetitions, hour):', specs)
+            eo = guarded(lambda: [of_coord(c) for c in build_collection(m['entry'], specs)[0]().outline])
+        else:
+            eo = guarded(lambda: [of_coord(c) for c in rebuild_entry(m['entry'], ms).outline])
         flat = [p for x in ms for p in x]
         print(f'entry point {m["entry"]} on members {ms} now:', eo)
         if eo[0] == 'Ok':
